@@ -115,9 +115,9 @@ def _pairs():
             trace=(rep != 'rotmat'))
     add('tilt_nomag', [AC], lambda A, a: A.filters.Tilt(acc=a).Q, lambda A, a: A.filters.Tilt(acc=a).Q, domain='a')
     add('saam', [AC, MG], lambda A, a, m: A.filters.SAAM(acc=a, mag=m).Q, lambda A, a, m: A.filters.SAAM(acc=a, mag=m).Q, domain='am',
-        two=True)
+        two=True, tol=(64, 1e-9))      # q = raw/|raw| with |raw| -> 0 as acc -> parallel to mag: rounding is amplified (4e-14 seen)
     add('saam_rotmat', [AC, MG], lambda A, a, m: A.filters.SAAM(acc=a, mag=m, representation='rotmat').A,
-        lambda A, a, m: A.filters.SAAM(acc=a, mag=m, representation='rotmat').A, domain='am', trace=False)
+        lambda A, a, m: A.filters.SAAM(acc=a, mag=m, representation='rotmat').A, domain='am', trace=False, tol=(64, 1e-9))
     # ---- loop-style estimators: batch = [estimate(row) for row]
     add('famc', [AC, MG], lambda A, a, m: A.filters.FAMC(acc=a, mag=m).Q, lambda A, a, m: A.filters.FAMC(acc=a, mag=m).Q, kind='shared',
         domain='am')
@@ -350,7 +350,12 @@ def region_of(p, row):
 def rows_for(p, rng, n):
     d = p.domain
     if d == 'quat':
-        return [(r, list(q)) for r, q in _quat_rows(rng, n)]
+        out = [(r, list(q)) for r, q in _quat_rows(rng, n)]
+        # rows that are nearly but not exactly unit (inside allclose(norm, 1)): a "skip the normalisation when already
+        # normalised" shortcut in only one of the two constructors shows up here (seeded mutation m3)
+        for k, sc in enumerate((1 + 3e-6, 1 - 5e-6, 1 + 1e-7, 1 + 8e-6)):
+            out.append(('near-unit', list(out[5 + 7 * k][1] if False else np.array(out[5 + 7 * k][1]) * sc)))
+        return out
     if d == 'quat2':
         qs = _quat_rows(rng, n)
         out = []
@@ -447,7 +452,7 @@ def _cmp(p, bi, si):
     ulp, at = p.tol
     sc = max(1.0, float(np.max(np.abs(s[ok]))) if ok.any() else 1.0)
     d = float(np.max(np.abs(b[ok] - s[ok]))) if ok.any() else 0.0
-    if d <= at + min(ulp, 64) * sc * 2.0 ** -52:
+    if d <= at + ulp * sc * 2.0 ** -52:
         return None
     if b.size == 4 and cm.maxabs(b * np.array([1, -1, -1, -1.0]), s) <= 1e-12:
         return 'conjugate'
